@@ -120,6 +120,7 @@ DRIVERS = {
             ("exhaust", ["-v", "3", "-outs", "nil,err,skipparents", "-orders", "1", "-serial"], 0, 0),
             ("follow", [], 800, 16000)],
     "C16": [("rand", ["-maxv", "4", "-weird", "0.6"], 480, 12000), ("rand", ["-maxv", "3", "-weird", "0.9"], 160, 4000),
+            ("rand", ["-maxv", "8", "-weird", "0.1", "-wide"], 160, 4000),  # wide graphs: vertices with five and more dependencies that others depend on
             ("exhaust", ["-v", "3", "-outs", "nil,err", "-orders", "1", "-limit", "1"], 0, 0),
             ("rand", ["-maxv", "5", "-weird", "0", "-fill"], 240, 6000),  # fill-the-semaphore schedules (incl. a second round with another limit)
             ("exhaust", ["-v", "0", "-outs", "nil", "-orders", "3"], 0, 0),  # the empty graph (plain, reversed, shuffled: the same)
